@@ -145,7 +145,13 @@ func (g *Generator) AdjustEnv(env []*nri.KeyValue) {
 	mod := map[string]*nri.KeyValue{}
 
 	for _, e := range env {
-		key, _ := nri.IsMarkedForRemoval(e.Key)
+		key, marked := nri.IsMarkedForRemoval(e.Key)
+		if m, ok := mod[key]; ok && marked {
+			if _, removal := m.IsMarkedForRemoval(); !removal {
+				// an addition takes precedence over a removal of the same variable
+				continue
+			}
+		}
 		mod[key] = e
 	}
 
@@ -174,7 +180,7 @@ func (g *Generator) AdjustEnv(env []*nri.KeyValue) {
 		if _, marked := e.IsMarkedForRemoval(); marked {
 			continue
 		}
-		if _, ok := mod[e.Key]; ok {
+		if m, ok := mod[e.Key]; ok && m == e {
 			g.AddProcessEnv(e.Key, e.Value)
 		}
 	}
